@@ -351,11 +351,21 @@ def _server(repo):
     env.pop("FAKE_HOST", None)
     s = subprocess.Popen([sys.executable, CHILD, "--server"], stdin=subprocess.PIPE, stdout=subprocess.PIPE,
                          stderr=subprocess.DEVNULL, env=env, text=True, start_new_session=True)
-    line = s.stdout.readline()
-    if line.strip() != "ready":
-        raise RuntimeError("c07 server did not start: %r" % line)
+    line = _readline(s, 300)
+    if line is None or line.strip() != "ready":
+        s.kill()
+        raise TimeoutError("c07 server did not start: %r" % line)
     _SERVERS[key] = s
     return s
+
+
+def _readline(s, timeout):
+    """one line from the server's stdout, None on timeout"""
+    import select
+    r, _, _ = select.select([s.stdout], [], [], timeout)
+    if not r:
+        return None
+    return s.stdout.readline()
 
 
 def shutdown_servers():
@@ -415,13 +425,22 @@ class Workspace:
         env = {"FAKE_HOST": host}
         job = {"cwd": self.root, "develop": develop, "argv": argv, "env": env, "out": base + ".out",
                "res": base + ".json", "timeout": timeout, "bobroot": os.path.join(self.world.repo, "bob")}
-        s = _server(self.world.repo)
-        s.stdin.write(json.dumps(job) + "\n")
-        s.stdin.flush()
-        line = s.stdout.readline()
+        try:
+            s = _server(self.world.repo)
+            s.stdin.write(json.dumps(job) + "\n")
+            s.stdin.flush()
+            line = _readline(s, timeout + 60)
+        except (TimeoutError, OSError):
+            line = None
         if not line:
-            raise RuntimeError("c07 server died")
-        st = json.loads(line)
+            # the server hangs or died: give up on it, the caller treats this as a skipped invocation
+            for k, v in list(_SERVERS.items()):
+                if k[0] == os.getpid():
+                    v.kill()
+                    del _SERVERS[k]
+            st = {"wait": "timeout"}
+        else:
+            st = json.loads(line)
         out = {"wait": st["wait"], "rc": None, "error": None, "log": [], "dump": None, "stat": None, "argv": argv,
                "host": host, "develop": develop}
         if os.path.exists(job["res"]):
